@@ -58,6 +58,11 @@ pub trait Property: Sync {
     fn max_shards(&self) -> usize {
         16
     }
+    /// How often the case of a dead worker is re-run alone before "does not reproduce" is accepted
+    /// (more than once where the OS scheduler decides the outcome).
+    fn confirm_attempts(&self) -> usize {
+        1
+    }
     fn exhaustive_only(&self, _tier: Tier) -> bool {
         false
     }
